@@ -335,19 +335,28 @@ func (r *UnifiedMemoryModelRegistry) GetUnifiedStats(ctx context.Context) (Unifi
 
 // RemoveEndpoint overrides to clean up unified models
 func (r *UnifiedMemoryModelRegistry) RemoveEndpoint(ctx context.Context, endpointURL string) error {
-	// First remove from base registry
+	// First remove from base registry. The removal takes its place in the order of the endpoint's
+	// listings the way a listing does: base registry and generation change together, so that no
+	// listing can slip between the two and be kept by one view and voided in the other
+	r.registerMutex.Lock()
 	if err := r.MemoryModelRegistry.RemoveEndpoint(ctx, endpointURL); err != nil {
+		r.registerMutex.Unlock()
 		return err
 	}
-
 	// Listings of this endpoint that are still waiting to be unified are void now
-	r.registerMutex.Lock()
 	r.listingGen[endpointURL]++
+	generation := r.listingGen[endpointURL]
 	r.registerMutex.Unlock()
 
 	// Clean up unified models
 	r.unificationMutex.Lock()
 	defer r.unificationMutex.Unlock()
+
+	// ... unless the endpoint has listed again in the meantime: that listing's unification owns
+	// the endpoint's entries now
+	if !r.isCurrentListing(endpointURL, generation) {
+		return nil
+	}
 
 	// Remove endpoint from all unified models
 	r.globalUnified.Range(func(id string, model *domain.UnifiedModel) bool {
